@@ -1,1 +1,4 @@
 import Proofs.C15
+import Proofs.C16
+import Proofs.C03
+import Proofs.C01
